@@ -120,7 +120,7 @@ fn comment_after_type_head(lay: &Layout) -> bool {
     (1..lay.pieces.len()).any(|i| {
         matches!(lay.pieces[i].kind, PieceKind::LineComment | PieceKind::BlockComment)
             && (wf::is_type_head_word(&lay.pieces[i - 1].text.to_ascii_lowercase())
-                || (i > 1 && lay.pieces[i - 1].text.eq_ignore_ascii_case("for") && lay.pieces[i - 2].text.eq_ignore_ascii_case("helper")))
+                || (i > 1 && lay.pieces[i - 1].text.eq_ignore_ascii_case("for") && lay.pieces[..i - 1].iter().rev().find(|q| matches!(q.kind, PieceKind::Tok(_) | PieceKind::Extra)).is_some_and(|q| q.text.eq_ignore_ascii_case("helper"))))
     })
 }
 
@@ -297,7 +297,7 @@ impl Prop for C07 {
                     [a, b].iter().any(|&p| {
                         p > 0
                             && (matches!(lay.pieces[p - 1].text.to_ascii_lowercase().as_str(), "class" | "record" | "interface" | "object" | "=" | "helper" | "packed" | "to" | "of" | "array" | "set" | "reference" | "function" | "procedure")
-                                || (p > 1 && lay.pieces[p - 1].text.eq_ignore_ascii_case("for") && lay.pieces[p - 2].text.eq_ignore_ascii_case("helper")))
+                                || (p > 1 && lay.pieces[p - 1].text.eq_ignore_ascii_case("for") && lay.pieces[..p - 1].iter().rev().find(|q| matches!(q.kind, PieceKind::Tok(_) | PieceKind::Extra)).is_some_and(|q| q.text.eq_ignore_ascii_case("helper"))))
                     })
                 });
                 let class = if wf::in_ranges(&orphans, ord) || (ord > 0 && wf::in_ranges(&orphans, ord - 1)) {
